@@ -1,4 +1,5 @@
 mod common;
+mod c12;
 mod c20;
 
 use common::*;
@@ -47,6 +48,7 @@ fn main() {
     // keep panics of the code under test out of the output stream
     std::panic::set_hook(Box::new(|_| {}));
     let rep = match prop.as_str() {
+        "c12" => c12::run(&opts),
         "c20" => c20::run(&opts),
         other => {
             eprintln!("unknown property {other}");
